@@ -340,8 +340,8 @@ def parse_shape(R, ctx):
     I = FDI(f, effects=EFF, no_inline=NI, no_models=[r'Iterator>?::any$'], loop_k=ctx.k(1, 2), max_steps=80000, max_rows=80000)
     rows = I.run(b.path, arg_names=['spec'])
     import table as T
-    bad_ok = bad_push = bad_ws = bad_lvl = bad_name = bad_all = None
-    n_ok = n_err = n_errseg = n_ws = n_lvl = n_all = 0
+    bad_ok = bad_push = bad_ws = bad_lvl = bad_name = bad_all = bad_slash = None
+    n_ok = n_err = n_errseg = n_ws = n_lvl = n_all = n_slash = 0
     for r in rows:
         if r.undecided:
             raise CheckError(f"R17.3 parse table UNDECIDED: {r.undecided}")
@@ -401,6 +401,14 @@ def parse_shape(R, ctx):
                                           "the words the renderer writes (incl. `off`) are not all understood, so Display/TOML text does not parse back to the same specification"
                             else:
                                 raise CheckError(f"R17.1: origin of a pushed level not recognised: {repr(lx)[:200]}")
+        # (f) structure: a third '/'-separated segment makes the whole text malformed - whatever that segment contains: the row ends in the error
+        # result and nothing of the text is applied (a tolerated `info/foo/` would silently drop whatever follows the second '/')
+        sl = [e for e in r.effects if e[0].split('::')[-1] == 'next' and _splits_at(e[2]['x'][0], '/')]
+        if len(sl) >= 3 and r.get(f"variant({sl[2][0]}#{sl[2][2].get('n')})") == 'Some':
+            n_slash += 1
+            if not is_err or any(e[0].split('::')[-1] == 'push' and 'ModuleFilter' in (r.long(e[1][1]) if len(e[1]) > 1 else '') for e in r.effects):
+                bad_slash = ("a text with more than two '/'-separated segments is accepted on some path (the outcome depends on what the surplus segment contains): "
+                             "malformed input is not reported and the rest of the text is silently dropped")
         # (e) every part is examined: the loop over the comma-separated parts ends only when the split iterator itself is exhausted - a truncating
         # adaptor (take_while / map_while), a `break` or an early return on some part leaves the rest of the text unexamined: module filters
         # behind it are silently missing and malformed parts behind it are not reported
@@ -432,6 +440,10 @@ def parse_shape(R, ctx):
         raise CheckError(f"R17.3: form of parse not recognised (ok rows {n_ok}, error rows {n_err}, erroneous segments {n_errseg}, whitespace cases {n_ws})")
     R.check('R17.3', f"{b.path}|ok-iff-no-error-text", not bad_ok, f"{n_ok} Ok rows all behind parse_errs.is_empty(); {n_err} rows return parse_err(text, spec)",
             f"LogSpecification::parse can return Ok although an error text was collected: {bad_ok}", where=b.loc(), sample={'rows': len(rows)})
+    if not bad_slash and n_slash < 1:
+        raise CheckError("R17.3: the test for surplus '/'-separated segments was not found on the rows of parse")
+    R.check('R17.3', f"{b.path}|surplus-slash-segments-are-an-error", not bad_slash, f"{n_slash} rows with a third '/'-segment: all end in the error result, nothing applied",
+            f"LogSpecification::parse: {bad_slash}", where=b.loc())
     if not bad_all and n_all < 4:
         raise CheckError(f"R17.3: loop over the comma-separated parts not recognised ({n_all} rows)")
     R.check('R17.3', f"{b.path}|every-part-examined", not bad_all, f"{n_all} rows: the part loop ends only when split(',') is exhausted", f"LogSpecification::parse: {bad_all}", where=b.loc())
